@@ -77,9 +77,15 @@ Definition rewritten_size (next : list (pkey * tree)) : Z :=
 Definition scalar_marshal_type (t : Z) : bool :=
   (t =? T_BOOL) || (t =? T_BYTE) || (t =? T_I16) || (t =? T_I32) || (t =? T_I64) || (t =? T_DOUBLE) || (t =? T_STRING).
 
+(* thrift.ERROR: the node a failed lookup returns (Node.Field()/GetByPath() on an absent element, ...). A tree holding one
+   has no encoding: PathNode.marshal starts with `if self.IsError() { return self.Node }`, for the root and, through the
+   recursion, for every child that is not skipped as empty. *)
+Definition T_ERROR := 255.
+
 Fixpoint marshal (x : tree) : option (list Z) :=
   match x with
   | T t et kt raw next =>
+    if t =? T_ERROR then None else
     match next with
     | [] => Some raw
     | _ =>
